@@ -82,6 +82,11 @@ func (c *compiler) makeConstant(i interface{}) []byte {
 	switch reflect.TypeOf(i).Kind() {
 	case reflect.Slice, reflect.Map:
 		hashable = false
+	case reflect.Float32, reflect.Float64:
+		// 0.0 and -0.0 are the same map key and different constants.
+		if f := reflect.ValueOf(i).Float(); f == 0 && math.Signbit(f) {
+			hashable = false
+		}
 	case reflect.Struct, reflect.Array, reflect.Func:
 		// A struct or array may hold slices, maps or functions, directly
 		// or inside an interface value: such a constant is not a map key.
